@@ -51,7 +51,7 @@ func init() {
 	})
 	register(&Prop{
 		ID:    "C11",
-		Rules: []func(*core.Ctx){RFx, RLock, RClockEnd, ROwn, RProtoCopy},
+		Rules: []func(*core.Ctx){RFx, RLock, RClockEnd, ROwn, RProtoCopy, RUnlock},
 		Explanation: "R-FX effect confinement: whole-program shared-derived taint on SSA over everything reachable from the match-time API; every write whose target derives from a shared Regexp / Code / global must be one of the lock- or atomic-protected structures. R-LOCK lockset dataflow for those structures. R-OWN ownership of pooled runners and buffers. " +
 			"Decides data-race freedom of the enumerated shared state (a necessary condition of C11). That concurrent results equal sequential ones is NOT decided beyond race freedom plus C12's independence.",
 	})
